@@ -154,6 +154,26 @@ def special_preempts(r, ctx):
         r.check(ps.reaches(c.block, {pb[0].block}), "push_special/remove-before-queue/" + describe_operand(ps, c.args[0]).split(".")[-1], c.loc(), "removal precedes queuing the special action")
 
 
+def uplink_state_lifetime(r, ctx):
+    """C14.R3c: the per-lane uplink entries (pending supply items, value, map queue) are dropped when an Unlinked is *accepted*, never when
+    a queued special action is popped: by then the remote may have linked again and the entry holds items owed to the new link."""
+    rt = ctx.crate("swimos_runtime")
+    push, pop, ps = fns(ctx)
+    n = 0
+    for b in rt.all_bodies():
+        if "remotes::uplink::" not in b.defpath or "::tests" in b.defpath:
+            continue
+        for c in b.calls:
+            if c.name in ("remove", "clear", "retain", "drain", "remove_entry") and c.args and "_uplinks" in describe_operand(b, c.args[0]):
+                n += 1
+                ctx.saw(b)
+                fld = describe_operand(b, c.args[0]).split(".")[-1]
+                home = (b.meta.get("name") or b.defpath.split("::")[-1])
+                r.check(b is ps, "%s/%s.%s/only-when-unlinked-is-accepted" % (home, fld, c.name), c.loc(), "%s is dropped in push_special, in the order the unlink was requested" % fld,
+                        "%s drops %s entries: when a queued Unlinked is finally written the remote may have linked again, and the items supplied to the new link (which are in that entry) are lost" % (home, fld))
+    r.check(n >= 3, "uplinks-state/removal-sites", where(ps), "%d sites drop per-lane uplink state" % n)
+
+
 def writer_token(r, ctx):
     """C01.R7: the lent-out writer is handed back or turned into exactly one WriteTask."""
     push, pop, ps = fns(ctx)
